@@ -6,7 +6,7 @@ CONSTANTS
   EstAge = 2
   VetAge = 3
   DaySecs = 2
-  Nodes = {1, 2}
+  Nodes = {n1, n2}
   MaxT = 4
   MaxOps = 5
   MaxRejoin = 2
@@ -15,7 +15,7 @@ CONSTANTS
   VetSet = {0, 3}
   BpdSet = {100}
   MaxbM = 150
-  Retentions = {0, 2}
+  Retentions = {1}
   AsImplemented_CategoryHardcoded = FALSE
   AsImplemented_UptimeSinceLastSeen = FALSE
   AsImplemented_UnknownReasonWhenPassing = FALSE
@@ -23,6 +23,7 @@ CONSTANTS
   AsImplemented_RelaxedByReplOnly = FALSE
   AsImplemented_HugeRetentionPanics = FALSE
   Variant_RejoinResetsAge = FALSE
+SYMMETRY Perms
 CONSTRAINT Bounded
 INVARIANTS TypeOK Vac_NeverRemoved
 CHECK_DEADLOCK FALSE
